@@ -98,8 +98,8 @@ theorem C08_second_round_trip_exact (P : Rat) (hP : 0 < P) (x : Rat) :
   simp only [id]
   exact C08_fixed_point P hP _
 
-/-- integers inside the i32 range are written exactly -/
-theorem C08_integers_exact (r : Rat → Rat) (p : Nat) (k : Int) (hk : -2147483648 ≤ k ∧ k ≤ 2147483647) :
+/-- integers are written exactly — inside the i32 range through `as i32`, beyond it as they are -/
+theorem C08_integers_exact (r : Rat → Rat) (p : Nat) (k : Int) :
     writeNumValue r p (k : Rat) = k := by
   unfold writeNumValue
   have hint : intLike (k : Rat) = true := by
@@ -111,20 +111,25 @@ theorem C08_integers_exact (r : Rat → Rat) (p : Nat) (k : Int) (hk : -21474836
         rw [Lemmas.rat_floor_eq]; simpa using Int.floor_intCast (R := ℚ) (-k)
       simp [this]
   simp only [hint, if_true]
-  unfold asI32
-  by_cases h : (0 : Rat) ≤ k
-  · simp only [h, if_true, Lemmas.rat_floor_eq, Int.floor_intCast]
-    split_ifs <;> first | rfl | omega
-  · simp only [h, if_false]
-    have : ((-(k : Rat)).floor) = -k := by
-      rw [Lemmas.rat_floor_eq]; simpa using Int.floor_intCast (R := ℚ) (-k)
-    rw [this]
-    simp only [neg_neg]
-    split_ifs <;> first | rfl | omega
+  split_ifs with hr
+  · have h1 : k < 2147483648 := by exact_mod_cast hr.1
+    have h2 : -2147483648 < k := by exact_mod_cast hr.2
+    unfold asI32
+    by_cases h : (0 : Rat) ≤ k
+    · simp only [h, if_true, Lemmas.rat_floor_eq, Int.floor_intCast]
+      split_ifs <;> first | rfl | omega
+    · simp only [h, if_false]
+      have : ((-(k : Rat)).floor) = -k := by
+        rw [Lemmas.rat_floor_eq]; simpa using Int.floor_intCast (R := ℚ) (-k)
+      rw [this]
+      simp only [neg_neg]
+      split_ifs <;> first | rfl | omega
+  · rfl
 
-/-- **outside the i32 range the integer branch saturates**: 3·10⁹ is written as 2147483647
-    (recorded; invisible in the rendering, the coordinate is far outside any canvas) -/
-theorem C08_large_integer_saturates : writeNumValue id 8 3000000000 = 2147483647 := by decide +kernel
+/-- before fix d6c230e the integer branch saturated outside the i32 range: 3·10⁹ was written as 2147483647 -/
+theorem C08_old_large_integer_saturates :
+    writeNumValueOld id 8 3000000000 = 2147483647 ∧ writeNumValue id 8 3000000000 = 3000000000 := by
+  constructor <;> decide +kernel
 
 example : roundAt id 100 (314159 / 100000) = 314 / 100 := by decide +kernel
 
